@@ -353,6 +353,11 @@ func runC15(c *core.Ctx) {
 			if !isBlockLoad(ci) {
 				continue
 			}
+			// the function's own loads, and - for the functions of the recursion, which are the ones that test the budget -
+			// the loads of the steps expanded into them
+			if ci.Parent() != fn && !(tr.recursive(fn) && tr.absorbed(ci.Parent())) {
+				continue
+			}
 			n++
 			path, reached := core.Reach(fn, nil, isTarget(ci), noBudgetEdges(fn), isSpendOf("LinkBudget"))
 			c.Check(!reached, fmt.Sprintf("%s#load%d", core.FuncKey(fn), n), p.Pos(ci.Pos()), "behind a link-budget spend", "a block load is reachable without the link budget having been spent: the link budget does not bound loads on this path", p.Witness(path)...)
